@@ -94,7 +94,7 @@ theorem T15_zstring_diagonal (qs : List Nat) (ψ : Lab → α) (x : Lab) :
 /-- non-vacuity: Z₀·Z₁·Z₀ on the label 10 has value +1 (it is Z₁), not −1. -/
 example : zval (α := Int) (fun q => q == 0) [symZ 0, symZ 1, symZ 0] = 1 := by decide
 
-/-- dense class, full statement (not asserted; exercised by the correspondence): for a
+/-- dense class, full statement (proved: `T15_samples_dense_index_full_proved`, C15d.lean): for a
 qubit map that is a permutation of `0 … n-1` the index computed by
 `Hamiltonian.expectation_from_samples` is the array index of the label of the key. -/
 def T15_samples_dense_index_full : Prop :=
